@@ -399,7 +399,8 @@ impl<S: BuildHasher + Clone + 'static> SampledLFU<S> {
     /// get the remain space of SampledLRU
     #[inline]
     pub fn room_left(&self, cost: i64) -> i64 {
-        self.get_max_cost() - (self.used + cost)
+        self.get_max_cost()
+            .saturating_sub(self.used.saturating_add(cost))
     }
 
     /// try to fill the SampledLFU by the given pairs.
@@ -455,6 +456,8 @@ impl<S: BuildHasher + Clone + 'static> SampledLFU<S> {
             Some(prev) => {
                 let prev_val = *prev;
                 let k = *k;
+                // the charged total has to stay representable: charge at most what still fits
+                let cost = cost.min(i64::MAX - (self.used - prev_val).max(0));
                 if self.metrics.is_op() {
                     self.metrics.add(MetricType::KeyUpdate, k, 1);
                     match prev_val.cmp(&cost) {
